@@ -64,6 +64,7 @@ K = (("H", 0, 0), ("H", 2, 0), ("H", 1, 0), ("O", 0, 0), ("C", 0, 0), ("Si", 0, 
      ("Fe", 0, 2), ("O", 0, -2), ("O", 18, -2))
 K9 = (("H", 0, 0), ("H", 2, 0), ("O", 0, 0), ("Ti", 0, 0), ("V", 0, 0), ("B", 10, 0), ("Gd", 157, 0),
       ("Lu", 0, 0), ("O", 18, -2))
+HIST_OWN = (2.33, 1.0)          # own densities of the Formula object of a history
 NODATA = (("Kr", 78, 0), ("Ru", 96, 0), ("Po", 0, 0), ("Og", 0, 0))
 
 
@@ -250,6 +251,44 @@ class Checker(object):
             acc.violation("raises:%s:%s:%s" % (type(e).__name__, route, cls), case, "seven values",
                           "%s: %s" % (type(e).__name__, e), standalone=standalone)
             return False
+        fail = self.judge(got, route, frags, dspec, wls, shape, how)
+        if fail is None:
+            return True
+        fail = self.refine_natural(fail, route, frags, dspec, wls)
+        if "failing_index" in fail:
+            case["failing_index"] = fail["failing_index"]
+        acc.violation(fail["sig"], case, fail["expected"], fail["observed"], standalone=standalone,
+                      detail=fail.get("detail"))
+        return False
+
+    def refine_natural(self, fail, route, frags, dspec, wls):
+        """A failing case whose density was given as natural density: if the same compound with the equivalent
+        plain density= agrees with the reference, the cause is the conversion of the natural density, and the
+        signature says so (with the most specific kind of atom in the compound)."""
+        if dspec[0] not in ("natural", "tagn") or not fail["sig"].startswith("eq:") or route.startswith("direct"):
+            return fail
+        try:
+            dens = self.ref_density(frags, dspec)
+            fn = self.pt.neutron_scattering if route == "compound" else self.pt.neutron_sld
+            comp = [(c, lib_atom(self.pt, k)) for c, k in frags]
+            i = fail.get("failing_index", 0)
+            with np.errstate(all="ignore"):
+                got = fn(comp, density=dens, wavelength=wls[i])
+            if self.judge(got, route, frags, ("density", dens), [wls[i]], "scalar", "wl", count=False) is not None:
+                return fail
+        except Exception:
+            return fail
+        kinds = set(("isotope-ion" if (k[1] and k[2]) else "isotope" if k[1] else "ion" if k[2] else "element")
+                    for c, k in frags)
+        kind = [x for x in ("isotope-ion", "isotope", "ion", "element") if x in kinds][0]
+        return dict(fail, sig="natural-density-conversion:%s" % kind)
+
+    def judge(self, got, route, frags, dspec, wls, shape, how, count=True):
+        """Compare one result of the library with the reference.  -> None (agrees) or a dict(sig=, expected=,
+        observed=, [detail=, failing_index=]) that describes the disagreement (nothing is reported here)."""
+        acc = self.acc
+        has_table = bool(self.table_atoms(frags))
+        cls = "table" if has_table else "const"
         # expected
         known = [self.data.has_data(k) for c, k in frags]
         if any(x is None for x in known):
@@ -258,10 +297,11 @@ class Checker(object):
             acc.outcome("no-data -> (None, None, None)")
             ok = (isinstance(got, tuple) and len(got) == 3 and all(x is None for x in got))
             if not ok:
-                acc.violation("nodata-returns-values:%s" % route, case, "(None, None, None)", repr(got)[:300],
-                              standalone=standalone)
-            return ok
-        acc.nontrivial += 1
+                return dict(sig="nodata-returns-values:%s" % route, expected="(None, None, None)",
+                            observed=repr(got)[:300])
+            return None
+        if count:
+            acc.nontrivial += 1
         if route in ("direct", "direct_sld"):
             sym = frags[0][1][0]
             nd = self.data.element_number_density(sym)
@@ -276,22 +316,18 @@ class Checker(object):
         try:
             flat = self._flatten(got, sld_only)
         except Exception as e:
-            acc.violation("result-structure:%s:%s" % (route, cls), case, "((re, im, inc), (coh, abs, inc), pen)",
-                          repr(got)[:300], standalone=standalone)
-            return False
+            return dict(sig="result-structure:%s:%s" % (route, cls), expected="((re, im, inc), (coh, abs, inc), pen)",
+                        observed=repr(got)[:300])
         if shape == "vector":
             for k, v in flat.items():
                 if np.shape(v) != (n,):
-                    acc.violation("vector-shape:%s:%s" % (route, cls), case,
-                                  "every output of shape (%d,)" % n, "%s has shape %r" % (k, np.shape(v)),
-                                  standalone=standalone)
-                    return False
+                    return dict(sig="vector-shape:%s:%s" % (route, cls), expected="every output of shape (%d,)" % n,
+                                observed="%s has shape %r" % (k, np.shape(v)))
         else:
             for k, v in flat.items():
                 if np.shape(v) != ():
-                    acc.violation("scalar-shape:%s:%s" % (route, cls), case, "scalar outputs",
-                                  "%s has shape %r" % (k, np.shape(v)), standalone=standalone)
-                    return False
+                    return dict(sig="scalar-shape:%s:%s" % (route, cls), expected="scalar outputs",
+                                observed="%s has shape %r" % (k, np.shape(v)))
         fails = None
         names = list(flat)
         if shape == "vector":
@@ -324,14 +360,14 @@ class Checker(object):
             if best[0]:
                 fails = (i, w) + best
                 break
-            self._outcomes(best[1], cls, how, shape, route)
+            if count:
+                self._outcomes(best[1], cls, how, shape, route)
         if fails is None:
-            return True
+            return None
         i, w, bad, ref, obs = fails
         names = rn.OUTPUTS[:3] if sld_only else rn.OUTPUTS
         what = ("all" if len(bad) == len(names) else
                 "incoherent" if set(bad) <= set(("rho_inc", "xs_inc")) else "+".join(bad))
-        case["failing_index"] = i
         where = "direct" if route.startswith("direct") else "compound"
         cause = self.diagnose_table(frags, w) if has_table else None
         if cause is None and len(bad) >= 2:
@@ -348,9 +384,188 @@ class Checker(object):
                     what = "number-density"
                     break
         sig = cause if cause else "eq:%s:%s" % (what, where)
-        acc.violation(sig, case, dict((k, ref[k]) for k in names), dict((k, repr(obs[k])) for k in names),
-                      standalone=standalone, detail=dict(wavelength=w, failing=bad, route=route, cls=cls))
-        return False
+        return dict(sig=sig, expected=dict((k, ref[k]) for k in names), observed=dict((k, repr(obs[k])) for k in names),
+                    detail=dict(wavelength=w, failing=bad, route=route, cls=cls), failing_index=i)
+
+    # ---- histories on caller-owned objects
+    def hist_values(self, frags):
+        """the two wavelength vectors (same length, entrywise different) of a history: table points of the
+        table-driven atoms of the compound where there are any."""
+        nodes = [w for w, region in self.node_grid(frags)]
+        if nodes:
+            n = len(nodes)
+            v = ([nodes[n // 3], 1.798, nodes[(2 * n) // 3]], [nodes[n // 2], 0.5, nodes[n // 4]])
+        else:
+            v = ([1.0, 1.798, 10.0], [4.75, 0.5, 50.0])
+        if any(a == b for a, b in zip(*v)):
+            raise MachineryError("history vectors not entrywise different: %r" % (v,))
+        return v
+
+    @staticmethod
+    def hist_configs(form, frags):
+        """call configurations (route, density spec, index of the wavelength vector, unit) of one object kind"""
+        if form == "formula":
+            dens = [("own", HIST_OWN[0]), ("own", HIST_OWN[1]), ("density", 25.0), ("natural", 0.07)]
+        elif form == "list":
+            dens = [("density", HIST_OWN[0]), ("density", 25.0), ("natural", 0.07)]
+        elif form == "atom":
+            dens = [("atom",), ("density", 25.0), ("natural", 0.07)]
+        else:
+            raise MachineryError("form %r" % form)
+        cfgs = [("compound", d, vi, how) for d in dens for vi in (0, 1) for how in ("wl", "en")]
+        if form == "atom" and frags[0][1][2] == 0:
+            cfgs += [(r, ("atom",), vi, "wl") for r in ("direct", "direct_sld") for vi in (0, 1)]
+        return cfgs
+
+    @staticmethod
+    def hist_changed(c1, c2):
+        """which dimensions of the call differ between two consecutive configurations"""
+        out = []
+        if c1[3] != c2[3]:
+            out.append("unit")
+        if c1[2] != c2[2]:
+            out.append("wavelengths-edited-in-place")
+        if tuple(c1[1]) != tuple(c2[1]):
+            out.append("density")
+        if c1[0] != c2[0]:
+            out.append("route")
+        return out
+
+    @staticmethod
+    def _snap(comp, form, buf, wkind):
+        """the caller-visible state of the argument objects (documented attributes; private memo attributes a
+        refactoring might add are not part of it)"""
+        if form == "formula":
+            c = dict(structure=comp.structure, density=comp.density, name=comp.name)
+        elif form == "list":
+            c = dict(items=tuple(comp))
+        else:
+            c = {}
+        if wkind == "array":
+            c["buffer"] = (buf.dtype.str, buf.shape, buf.tobytes())
+        else:
+            c["buffer"] = (type(buf).__name__, tuple(type(x).__name__ for x in buf), tuple(buf))
+        return c
+
+    def history(self, frags, form, wkind, hist, control=False):
+        """Execute the call configurations `hist` one after the other on the SAME caller-owned objects: one
+        compound object (Formula / list / atom) and one wavelength buffer (numpy array / list) whose contents
+        the caller edits in place between the calls; a Formula's own density is assigned by the caller in place.
+        Every result must equal the reference for the values at the time of the call, and the argument objects
+        must come back as they went in.
+        -> None | ('config', configuration that fails or alters its arguments also on fresh objects)
+                | ('changed', frozenset of the dimensions changed before the call that fails only after the history)."""
+        acc = self.acc
+        pt = self.pt
+        frags = norm_frags(frags)
+        hist = [(c[0], tuple(c[1]), c[2], c[3]) for c in hist]
+        V = self.hist_values(frags)
+        cls = "table" if self.table_atoms(frags) else "const"
+        case = dict(kind="history", frags=[[c, list(k)] for c, k in frags], form=form, wkind=wkind,
+                    hist=[[c[0], list(c[1]), c[2], c[3]] for c in hist])
+        lines = ["import numpy as np", "import periodictable as pt"]
+        lsrc = "[%s]" % ", ".join("(%r, %s)" % (c, atom_py(k)) for c, k in frags)
+        if form == "formula":
+            comp = pt.formula([(c, lib_atom(pt, k)) for c, k in frags], density=HIST_OWN[0])
+            lines.append("comp = pt.formula(%s, density=%r)" % (lsrc, HIST_OWN[0]))
+        elif form == "list":
+            comp = [(c, lib_atom(pt, k)) for c, k in frags]
+            lines.append("comp = %s" % lsrc)
+        elif form == "atom":
+            if len(frags) != 1 or frags[0][0] != 1:
+                raise MachineryError("atom form needs a one-atom compound")
+            comp = lib_atom(pt, frags[0][1])
+            lines.append("comp = %s" % atom_py(frags[0][1]))
+        else:
+            raise MachineryError("form %r" % form)
+        if not control:
+            acc.states += 1
+            acc.nontrivial += 1
+            if acc.states % 40009 == 7:
+                acc.sample(case)
+        buf = None
+        for step, cfg in enumerate(hist):
+            route, dens, vi, how = cfg
+            wls = V[vi]
+            vals = list(wls) if how == "wl" else [rn.energy_of_wavelength(w) for w in wls]
+            if buf is None:
+                buf = np.array(vals, dtype=float) if wkind == "array" else list(vals)
+                lines.append("w = np.array(%r)" % (vals,) if wkind == "array" else "w = %r" % (vals,))
+            else:
+                buf[:] = vals                                   # the same object, new contents
+                lines.append("w[:] = %r" % (vals,))
+            kw = {("wavelength" if how == "wl" else "energy"): buf}
+            ksrc = ["%s=w" % ("wavelength" if how == "wl" else "energy")]
+            if dens[0] == "own":
+                if form != "formula":
+                    raise MachineryError("own density needs a Formula")
+                comp.density = dens[1]                          # the caller's own update, in place
+                lines.append("comp.density = %r" % dens[1])
+                dspec = ("density", dens[1])
+            elif dens[0] == "density":
+                kw["density"] = dens[1]; ksrc.insert(0, "density=%r" % dens[1]); dspec = dens
+            elif dens[0] == "natural":
+                kw["natural_density"] = dens[1]; ksrc.insert(0, "natural_density=%r" % dens[1]); dspec = dens
+            elif dens[0] == "atom":
+                dspec = ("atom",)
+            else:
+                raise MachineryError("density spec %r" % (dens,))
+            if route == "compound":
+                fn = pt.neutron_scattering
+                call = lambda: fn(comp, **kw)
+                lines.append("print(pt.neutron_scattering(comp, %s))" % ", ".join(ksrc))
+            else:
+                if form != "atom" or how != "wl" or dens[0] != "atom":
+                    raise MachineryError("direct route in configuration %r" % (cfg,))
+                meth = comp.neutron.scattering if route == "direct" else comp.neutron.sld
+                call = lambda: meth(wavelength=buf)
+                lines.append("print(comp.neutron.%s(wavelength=w))" % ("scattering" if route == "direct" else "sld"))
+            standalone = "\n".join(lines) + "\n"
+            before = self._snap(comp, form, buf, wkind)
+            acc.evaluations += 1
+            acc.transitions += 1
+            changed = self.hist_changed(hist[step - 1], cfg) if step else []
+            tag = "first-call" if not step else ("+".join(changed) if changed else "repeat")
+            fail = None
+            try:
+                with np.errstate(all="ignore"):
+                    got = call()
+            except Exception as e:
+                fail = dict(sig="raises:%s:%s:%s" % (type(e).__name__, route, cls), expected="seven values",
+                            observed="%s: %s" % (type(e).__name__, e))
+            if fail is None:
+                after = self._snap(comp, form, buf, wkind)
+                if after != before:
+                    if control:
+                        return ("config", cfg)
+                    which = [k for k in sorted(before) if before[k] != after.get(k)]
+                    label = {"buffer": "%s-%s" % ("wavelength" if how == "wl" else "energy", wkind),
+                             "items": "compound-list"}.get(which[0], "formula." + which[0])
+                    acc.violation("argument-altered:%s" % label, dict(case, failing_step=step),
+                                  "the caller's object unchanged: %r" % (before[which[0]],), repr(after.get(which[0])),
+                                  standalone=standalone, detail=dict(step=step, config=list(cfg), cls=cls))
+                    return ("config", cfg)
+                fail = self.judge(got, route, frags, dspec, wls, "vector", how, count=False)
+            if fail is None:
+                if not control:
+                    acc.outcome("history step: %s" % tag)
+                continue
+            if control:
+                return ("config", cfg)
+            c2 = dict(case, failing_step=step)
+            if "failing_index" in fail:
+                c2["failing_index"] = fail["failing_index"]
+            detail = dict(fail.get("detail") or {}, step=step, config=list(cfg), form=form, wkind=wkind)
+            if step and self.history(frags, form, wkind, [cfg], control=True) is None:
+                # the very same call on fresh objects agrees with the reference: the earlier calls did it
+                sig = "history-dependent:%s%s:%s" % ("depth%d:" % (step + 1) if step > 1 else "", tag, cls)
+                ret = ("changed", frozenset(changed))
+            else:
+                sig = self.refine_natural(fail, route, frags, dspec, wls)["sig"]
+                ret = ("config", cfg)
+            acc.violation(sig, c2, fail["expected"], fail["observed"], standalone=standalone, detail=detail)
+            return ret
+        return None
 
     def diagnose_table(self, frags, w):
         """Attribute a failing case to its cause: if the per-atom scattering length that the library serves for a
@@ -480,10 +695,9 @@ def do_single(ck, key, thorough):
             ck.case("sld", frags, form, ("atom",), ("wl", [4.75], "scalar"))
     # explicit densities in every form
     for d in DENSITIES:
-        dforms = [("density", d, "list"), ("tag", d, "string")]
-        if neutral:
-            dforms += [("natural", d, "list"), ("tagn", d, "string"), ("natural", d, "atom")]
-        else:
+        dforms = [("density", d, "list"), ("tag", d, "string"),
+                  ("natural", d, "list"), ("tagn", d, "string"), ("natural", d, "atom")]
+        if not neutral:
             dforms += [("density", d, "atom")]
         for kind, dv, form in dforms:
             dspec = (kind, dv)
@@ -508,12 +722,9 @@ def do_single(ck, key, thorough):
 def do_compound(ck, frags, thorough):
     """All cases of a multi-atom compound."""
     ck.data.clear_cache()
-    neutral = all(k[2] == 0 for c, k in frags)
     grid, full, vecs, has_nodes = _grids(ck, frags)
     for d in DENSITIES:
-        dforms = [("density", d, "list"), ("tag", d, "string")]
-        if neutral:
-            dforms += [("natural", d, "list"), ("tagn", d, "string")]
+        dforms = [("density", d, "list"), ("tag", d, "string"), ("natural", d, "list"), ("tagn", d, "string")]
         for kind, dv, form in dforms:
             dspec = (kind, dv)
             sweep = has_nodes and ((d == 1.0 and (thorough or kind in ("density", "tag")))
@@ -532,6 +743,61 @@ def do_compound(ck, frags, thorough):
                 ck.case("compound", frags, form, dspec, ("en", v, "vector"))
     ck.case("sld", frags, "list", ("density", 2.33), ("wl", [4.75], "scalar"))
     ck.case("compound", frags, "list", ("density", 1.0), ("default", [rn.ABS_WL], "scalar"))
+
+
+def do_history(ck, frags, thorough, depth3=False):
+    """All ordered pairs of call configurations on shared caller-owned objects, for every kind of compound object
+    and of wavelength buffer; pairs with fewer changed dimensions first, and nothing beyond a broken state: a
+    configuration that fails on fresh objects is not used again, a set of changed dimensions that breaks the
+    second call is not enlarged."""
+    ck.data.clear_cache()
+    acc = ck.acc
+    frags = norm_frags(frags)
+    single = len(frags) == 1 and frags[0][0] == 1
+    for form in ("formula", "list") + (("atom",) if single else ()):
+        cfgs = ck.hist_configs(form, frags)
+        pairs = [(a, b) for a in cfgs for b in cfgs]
+        pairs.sort(key=lambda p: len(ck.hist_changed(*p)))
+        for wkind in ("array", "list"):
+            bad_cfg, broken = set(), []
+            for a, b in pairs:
+                ch = frozenset(ck.hist_changed(a, b))
+                if a in bad_cfg or b in bad_cfg or any(x <= ch for x in broken):
+                    acc.count("histories_not_explored_beyond_a_violation")
+                    continue
+                r = ck.history(frags, form, wkind, [a, b])
+                if r is None:
+                    continue
+                if r[0] == "config":
+                    bad_cfg.add(r[1])
+                else:
+                    broken.append(r[1])
+            acc.count("history_pairs:%s/%s" % (form, wkind), len(pairs))
+            if depth3 and not bad_cfg and not broken:
+                stop = False
+                for a in cfgs:
+                    for b in cfgs:
+                        for c in cfgs:
+                            if ck.history(frags, form, wkind, [a, b, c]) is not None:
+                                stop = True
+                                break
+                        if stop:
+                            break
+                    if stop:
+                        break
+                acc.count("history_triples:%s/%s" % (form, wkind), len(cfgs) ** 3)
+
+
+def history_compounds(tier):
+    """-> (compounds for all ordered pairs of configurations, compounds also for all ordered triples)"""
+    singles = [[(1, k)] for k in K] + [[(1, k)] for k in ISOTOPE_IONS if k not in K]
+    alpha = K9 if tier == "quick" else K
+    pairs = []
+    for i in range(len(alpha)):
+        for j in range(i + 1, len(alpha)):
+            pairs.append([(1, alpha[i]), (2, alpha[j])])
+    deep = [] if tier == "quick" else [[(1, k)] for k in K9]
+    return singles + pairs, deep
 
 
 def do_nodata(ck, key):
@@ -612,6 +878,10 @@ def shard(args):
                 for cb in COUNTS:
                     for cc in COUNTS:
                         do_compound(ck, [(ca, a), (cb, b), (cc, c)], thorough)
+        elif kind == "history":
+            do_history(ck, [(c, tuple(k)) for c, k in it], thorough)
+        elif kind == "history3":
+            do_history(ck, [(c, tuple(k)) for c, k in it], thorough, depth3=True)
         elif kind == "nodata":
             do_nodata(ck, tuple(it))
         elif kind == "nodata-sweep":
@@ -619,7 +889,7 @@ def shard(args):
         else:
             raise MachineryError(kind)
         acc.count("compounds:" + kind)
-    if items:
+    if items and not kind.startswith("history"):
         acc.sample(dict(kind=kind, first=[list(x) if isinstance(x, tuple) else x for x in
                                          (items[0] if kind in ("pair", "triple") else [items[0]][:1])][:3]))
     return acc
@@ -681,6 +951,14 @@ def run(ctx):
     nd = all_nodata_atoms(data)
     ctx.acc.info["atoms_without_data_reader"] = len(nd)
     jobs.append(("nodata-sweep", [nd], tier))
+    hist, deep = history_compounds(tier)
+    hist = [h for h in hist if h not in deep]
+    hw = [(3.0 if len(f) == 1 else 1.0) * _weight(data, [k for c, k in f]) ** 0.25 for f in hist]
+    for chunk in _balanced(hist, hw, nsh):
+        jobs.append(("history", chunk, tier))
+    for f in deep:
+        jobs.append(("history3", [f], tier))
+    ctx.acc.info["history_compounds"] = len(hist) + len(deep)
     if not ctx.quick:
         triples = triple_list()
         for chunk in _balanced(triples, [_weight(data, t) for t in triples], 2 * nsh):
@@ -693,5 +971,8 @@ def run(ctx):
 def replay(ctx, case, signature=None):
     ck = Checker(ctx.acc, "thorough")
     frags = [(c, tuple(k)) for c, k in case["frags"]]
+    if case.get("kind") == "history":
+        ck.history(frags, case["form"], case["wkind"], case["hist"])
+        return
     how, wls, shape = case["w"]
     ck.case(case["route"], frags, case["form"], tuple(case["dens"]), (how, wls, shape))
